@@ -226,6 +226,7 @@ func stateAsof(args asofArgs) *DbState {
 	store := args.store
 	var offSchema, offInfo uint64
 	var t int64
+	var stateOff uint64
 	off := store.Size()
 	for {
 		if off = store.LastOffset(off, magic1, nil); off == 0 {
@@ -234,6 +235,7 @@ func stateAsof(args asofArgs) *DbState {
 		if offSchema, offInfo, t = readState(store, off); t == 0 {
 			continue // invalid
 		}
+		stateOff = off
 		if t <= args.asof {
 			break
 		}
@@ -241,7 +243,7 @@ func stateAsof(args asofArgs) *DbState {
 	if t == 0 {
 		panic("no state found")
 	}
-	return &DbState{store: store, Asof: t, Off: off,
+	return &DbState{store: store, Asof: t, Off: stateOff,
 		Meta: meta.ReadMeta(store, offSchema, offInfo)}
 }
 
